@@ -353,7 +353,12 @@ class _Parser(object):
                 name = expression[2:].split('.')[0]
                 if name not in variables and name not in _SYSTEM_VARIABLES:
                     raise OperationFailure('Use of undefined variable: %s' % name)
-                return helpers.get_value_by_dot(variables, expression[2:], can_generate_array=True)
+                value = helpers.get_value_by_dot(
+                    variables, expression[2:], can_generate_array=True)
+                if value is NOTHING:
+                    # A variable that $let bound to a missing value.
+                    raise KeyError(name)
+                return value
             return helpers.get_value_by_dot(self._doc_dict, expression[1:], can_generate_array=True)
         if isinstance(expression, list):
             # An array literal: each item is an expression, a missing value gives a null item.
@@ -524,7 +529,7 @@ class _Parser(object):
             if not isinstance(value['vars'], dict):
                 raise OperationFailure('invalid parameter: expected an object (vars)')
             user_vars = {
-                var_key: self.parse(var_value)
+                var_key: self._parse_or_nothing(var_value)
                 for var_key, var_value in value['vars'].items()
             }
             return _Parser(
